@@ -562,6 +562,82 @@ func lateReceive(id string, seed uint64) runner.Result {
 	return res
 }
 
+// earlyReturn: a streaming handler registered with the real mux reads one message, answers and
+// returns nil ("seen enough") while the client does what a generated stub does: all its sends, the
+// half-close, then the receives. A handler that returns a response and no error must not yield an error
+// (or a call that never ends) at the client, also on a transport without buffering of its own.
+func earlyReturn(id string, seed uint64) runner.Result {
+	r := &payload.SplitMix{S: seed}
+	cfg := prog.GenConfig(r, false)
+	rendezvous := r.Intn(3) != 0
+	if rendezvous {
+		cfg.Net.Cap = 0
+	} else if cfg.Net.Cap == 0 {
+		cfg.Net.Cap = -1
+	}
+	mux := drpcmux.New()
+	p := &plan{k: 1}
+	if err := mux.Register(&srv{p: p}, desc{}); err != nil {
+		return runner.Violation(id, "register", "Register failed: "+err.Error())
+	}
+	rg := rig.New(rig.Config{Net: cfg.Net, Client: cfg.Client, Server: cfg.Server}, mux)
+	defer rg.Teardown()
+	nsend := 2 + r.Intn(4)
+	desc := fmt.Sprintf("%s | early-return rendezvous=%v: /svc/Bidi handler reads 1 message, answers, returns nil; client sends %d, half-closes, receives", cfg.Desc, rendezvous, nsend)
+	var got int
+	op := rig.Go("call", func() (interface{}, error) {
+		st, err := rg.Conn.NewStream(context.Background(), "/svc/Bidi", enc{})
+		if err != nil {
+			return nil, err
+		}
+		defer st.Close()
+		for i := 0; i < nsend; i++ {
+			if err := st.MsgSend(&Msg{B: payload.Make(1, 0, 0, uint32(i), 30)}, enc{}); err != nil {
+				break // the handler is gone: a send may report end-of-stream, the outcome is what the receive says
+			}
+		}
+		st.CloseSend()
+		for {
+			var m Msg
+			if err := st.MsgRecv(&m, enc{}); err != nil {
+				if rig.Cat(err) == "eof" {
+					return nil, nil
+				}
+				return nil, err
+			}
+			got++
+		}
+	})
+	if !op.Wait() {
+		_, snap := census.Quiesce(rig.Watchdog)
+		return runner.Violation(id, "error-identity:call-never-returns-after-handler-returned-nil", desc+"\nthe client call is still blocked with the whole process quiescent\n"+census.Dump(census.InDRPC(snap)))
+	}
+	var fails []string
+	if op.Err != nil {
+		fails = append(fails, "the handler returned a response and no error but the client got "+rig.ErrStr(op.Err))
+	} else if got != 1 {
+		fails = append(fails, fmt.Sprintf("the client received %d messages, the handler sent 1", got))
+	}
+	if len(fails) == 0 && !rig.IsClosed(rg.Conn.Closed()) {
+		p.fail, p.k, p.resp = nil, 0, []byte("probe-response")
+		var out Msg
+		probe := rig.Go("probe", func() (interface{}, error) {
+			return nil, rg.Conn.Invoke(context.Background(), "/svc/Unary", enc{}, &Msg{B: []byte("probe")}, &out)
+		})
+		if !probe.Wait() {
+			fails = append(fails, "probe RPC after the call did not return (connection not usable)")
+		} else if probe.Err != nil || string(out.B) != "probe-response" {
+			fails = append(fails, fmt.Sprintf("probe RPC after the call failed: err=%v", probe.Err))
+		}
+	}
+	if len(fails) > 0 {
+		return runner.Violation(id, "error-identity:early-return", desc+"\n"+strings.Join(fails, "\n"))
+	}
+	res := runner.Hold(id, desc, true)
+	res.Events = int64(nsend + 2)
+	return res
+}
+
 func gen(tier string, seed uint64) []runner.Scenario {
 	n := 250
 	if tier == "thorough" {
@@ -573,6 +649,10 @@ func gen(tier string, seed uint64) []runner.Scenario {
 		i := i
 		id := fmt.Sprintf("calls/%d", i)
 		out = append(out, runner.Scenario{ID: id, Run: func() runner.Result { return scenario(id, payload.Hash(seed, 0xC10, uint64(i))) }})
+		if i%10 == 0 {
+			id3 := fmt.Sprintf("early-return/%d", i)
+			out = append(out, runner.Scenario{ID: id3, Run: func() runner.Result { return earlyReturn(id3, payload.Hash(seed, 0xC10B, uint64(i))) }})
+		}
 		if i%5 == 0 {
 			id2 := fmt.Sprintf("late-receive/%d", i)
 			out = append(out, runner.Scenario{ID: id2, Run: func() runner.Result { return lateReceive(id2, payload.Hash(seed, 0xC10A, uint64(i))) }})
